@@ -114,6 +114,7 @@ def run(ctx: common.Run):
     check_sweeps(ctx, cirq, n)
     check_resolver(ctx, cirq, sympy, n)
     check_circuits(ctx, cirq, sympy, max(20, n // 5))
+    check_gate_families(ctx, cirq, sympy, 3 if ctx.tier == 'quick' else 25)
 
 
 def check_sweeps(ctx, cirq, n):
@@ -348,6 +349,72 @@ def check_circuits(ctx, cirq, sympy, n):
                 ctx.report_witness('circuit:flatten', 'flattening changed the value of a gate for some assignment', {'lines': [{'circuit': repr(sc), 'values': vv}],
                                    'impl_out': ['...'], 'spec_out': ['...'], 'theorem_or_correspondence': 'flatten_preserves'})
                 break
+
+
+def check_gate_families(ctx, cirq, sympy, rounds):
+    """resolving a parameterised gate of every library family = building the gate from the resolved numbers
+    (every constructor argument that accepts a symbol, global shifts and the other fixed arguments kept)"""
+    rng = ctx.substream('families')
+    S = sympy.Symbol
+    fams = {
+        'XPowGate': lambda v, c: cirq.XPowGate(exponent=v('a'), global_shift=c['s']),
+        'YPowGate': lambda v, c: cirq.YPowGate(exponent=v('a'), global_shift=c['s']),
+        'ZPowGate': lambda v, c: cirq.ZPowGate(exponent=v('a'), global_shift=c['s']),
+        'HPowGate': lambda v, c: cirq.HPowGate(exponent=v('a'), global_shift=c['s']),
+        'CZPowGate': lambda v, c: cirq.CZPowGate(exponent=v('a'), global_shift=c['s']),
+        'CXPowGate': lambda v, c: cirq.CXPowGate(exponent=v('a'), global_shift=c['s']),
+        'SwapPowGate': lambda v, c: cirq.SwapPowGate(exponent=v('a'), global_shift=c['s']),
+        'ISwapPowGate': lambda v, c: cirq.ISwapPowGate(exponent=v('a'), global_shift=c['s']),
+        'XXPowGate': lambda v, c: cirq.XXPowGate(exponent=v('a'), global_shift=c['s']),
+        'YYPowGate': lambda v, c: cirq.YYPowGate(exponent=v('a'), global_shift=c['s']),
+        'ZZPowGate': lambda v, c: cirq.ZZPowGate(exponent=v('a'), global_shift=c['s']),
+        'CCZPowGate': lambda v, c: cirq.CCZPowGate(exponent=v('a'), global_shift=c['s']),
+        'CCXPowGate': lambda v, c: cirq.CCXPowGate(exponent=v('a'), global_shift=c['s']),
+        'PhasedXPowGate': lambda v, c: cirq.PhasedXPowGate(phase_exponent=v('b'), exponent=v('a'), global_shift=c['s']),
+        'PhasedXZGate': lambda v, c: cirq.PhasedXZGate(x_exponent=v('a'), z_exponent=v('b'), axis_phase_exponent=v('c')),
+        'PhasedISwapPowGate': lambda v, c: cirq.PhasedISwapPowGate(phase_exponent=v('b'), exponent=v('a'), global_shift=c['s']),
+        'FSimGate': lambda v, c: cirq.FSimGate(theta=v('a'), phi=v('b')),
+        'PhasedFSimGate': lambda v, c: cirq.PhasedFSimGate(theta=v('a'), zeta=v('b'), chi=v('c'), gamma=c['x'], phi=v('a')),
+        'Rx': lambda v, c: cirq.Rx(rads=v('a')), 'Ry': lambda v, c: cirq.Ry(rads=v('a')), 'Rz': lambda v, c: cirq.Rz(rads=v('a')),
+        'MSGate': lambda v, c: cirq.ms(v('a')),
+        'GlobalPhaseGate': lambda v, c: cirq.GlobalPhaseGate(sympy.exp(sympy.I * v('a')) if not isinstance(v('a'), float) else complex(np.exp(1j * v('a')))),
+        'DiagonalGate': lambda v, c: cirq.DiagonalGate([v('a'), v('b'), c['x'], v('c')]),
+        'TwoQubitDiagonalGate': lambda v, c: cirq.TwoQubitDiagonalGate([v('a'), c['x'], v('b'), v('c')]),
+        'ThreeQubitDiagonalGate': lambda v, c: cirq.ThreeQubitDiagonalGate([v('a'), c['x'], v('b'), v('c'), 0, v('a'), 1, c['x']]),
+        'PhaseGradientGate': lambda v, c: cirq.PhaseGradientGate(num_qubits=2, exponent=v('a')),
+        'ControlledGate': lambda v, c: cirq.ControlledGate(cirq.ZPowGate(exponent=v('a'), global_shift=c['s'])),
+        'ParallelGate': lambda v, c: cirq.ParallelGate(cirq.XPowGate(exponent=v('a'), global_shift=c['s']), 2),
+        'PauliStringPhasorGate': lambda v, c: cirq.PauliStringPhasorGate(cirq.DensePauliString('XZ'), exponent_neg=v('a'), exponent_pos=v('b')),
+        'GivensRotation': lambda v, c: cirq.givens(v('a')),
+        'CPhase': lambda v, c: cirq.cphase(v('a')),
+    }
+    for name, mk in fams.items():
+        for _ in range(rounds):
+            vals = {'a': rng.choice([0.5, -0.25, 1.0, 0.37, 2.2]), 'b': rng.choice([0.25, -1.0, 0.11]), 'c': rng.choice([0.75, -0.6])}
+            consts = {'s': rng.choice([0, 0.5, -0.5, 0.25]), 'x': rng.choice([0.3, -1.2])}
+            try:
+                sym = mk(lambda k: S(k), consts)
+                num = mk(lambda k: float(vals[k]), consts)
+            except (TypeError, ValueError) as e:
+                ctx.count('family_skip', f'{name}:{type(e).__name__}')
+                break
+            ctx.count('check', 'family:' + name)
+            ctx.case(['family', name, vals, consts], True)
+            for rname, resolver in (('dict', vals), ('chain', {'a': S('z'), 'z': vals['a'], 'b': vals['b'], 'c': vals['c']})):
+                res = cirq.resolve_parameters(sym, resolver)
+                rep = {'lines': [{'family': name, 'symbolic': repr(sym), 'values': vals, 'resolver': rname}], 'theorem_or_correspondence': 'resolve_commutes_matrix'}
+                if cirq.is_parameterized(res):
+                    ctx.report_witness(f'family:resolve:{name}', 'a fully resolved gate is still parameterised', dict(rep, impl_out=[repr(res)], spec_out=[repr(num)]))
+                    break
+                try:
+                    u1, u2 = cirq.unitary(res), cirq.unitary(num)
+                except TypeError as e:
+                    ctx.report_witness(f'family:resolve:{name}', f'a fully resolved gate has no matrix: {str(e)[:80]}', dict(rep, impl_out=[repr(res)], spec_out=[repr(num)]))
+                    break
+                if u1.shape != u2.shape or not np.allclose(u1, u2, atol=1e-8):
+                    ctx.report_witness(f'family:resolve:{name}', 'resolving the parameters of a gate gives a different matrix than building the gate from the resolved numbers',
+                                       dict(rep, impl_out=[repr(res)], spec_out=[repr(num)]))
+                    break
 
 
 def replay(ctx, rep):
